@@ -96,3 +96,10 @@ func CAKey(cert any, key any) { panic("vf: engine intrinsic") }
 
 // AdvanceClock moves the engine's concrete clock forward by the given number of seconds.
 func AdvanceClock(seconds int64) { panic("vf: engine intrinsic") }
+
+// FSFile registers a file in the engine's stub file system; FSOpened lists every path passed to os.Open.
+func FSFile(path string, content []byte) { panic("vf: engine intrinsic") }
+func FSOpened() []string                 { panic("vf: engine intrinsic") }
+
+// FSRoot is the temporary directory of the native stub file system (empty in the engine).
+var FSRoot string
